@@ -107,6 +107,6 @@ def StreamInfo.new (rate channels bps : Nat) : Option StreamInfo :=
 
 /-- `MetadataBlockData::new_unknown`. -/
 def UnknownBlock.new (tag : Nat) (data : List Nat) : Option UnknownBlock :=
-  if tag ≤ 126 then some ⟨tag, data⟩ else none
+  if 1 ≤ tag ∧ tag ≤ 126 then some ⟨tag, data⟩ else none
 
 end FlacVerif
